@@ -9,6 +9,11 @@ F = {"f1": ["p", "f1.graphql"], "f2": ["p", "f2.graphql"], "f3": ["p", "q", "f3.
 FRAGS = {"f1": ["R"], "f2": ["A", "B"], "f3": ["C", "D"], "f4": ["E"], "f5": ["G", "H", "I"], "f6": ["A", "K"], "f7": ["B", "L"], "f8": ["E", "M"]}
 
 
+# operations of the files (operation names and fragment names are separate name spaces): some are called like a fragment of the same
+# file (rendered before it), f2 has one called Z - the name import lines request although no fragment Z exists
+OPS = {"f1": ["Q"], "f2": ["A", "Z"], "f5": ["H"], "f6": ["K"]}
+
+
 def rel(frm, to, rng):
     """a relative spelling of `to` from the directory of `frm` (possibly roundabout)"""
     d = frm[:-1]
@@ -81,7 +86,7 @@ def rand_case(rng):
     for k in sorted(F):
         fl.append({"path": F[k], "d": {"ok": True, "imports": files[k],
                                         "frags": [{"name": n, "spreads": []} for n in FRAGS[k]],
-                                        "ops": [{"name": "Q", "spreads": []}] if k == "f1" else []}})
+                                        "ops": [{"name": n, "spreads": []} for n in OPS.get(k, [])]}})
     return {"files": fl, "root": F[rng.choice(["f1", "f1", "f2", "f3"])]}
 
 
